@@ -296,10 +296,15 @@ def audit(prop, module, theorems, imports=""):
 # ----------------------------------------------------------------------------------
 # running both sides
 # ----------------------------------------------------------------------------------
-def _run_sharded(binary, lines, shards=NPROC, timeout=1200, env=None, per_shard=50):
+SHARD_TIMEOUT = int(os.environ.get("KV_SHARD_TIMEOUT", "1200"))   # the runner lowers it for the quick tier
+
+
+def _run_sharded(binary, lines, shards=NPROC, timeout=None, env=None, per_shard=50):
     """lines: list of 'id comp xval'.  Returns dict id -> output text."""
     if not lines:
         return {}
+    if timeout is None:
+        timeout = SHARD_TIMEOUT
     shards = max(1, min(shards, len(lines) // per_shard + 1))
     chunks = [lines[i::shards] for i in range(shards)]
     procs = []
@@ -317,8 +322,12 @@ def _run_sharded(binary, lines, shards=NPROC, timeout=1200, env=None, per_shard=
         try:
             o, _ = p.communicate("\n".join(ch) + "\n", timeout=timeout)
         except subprocess.TimeoutExpired:
+            # a case that does not come back: keep what the shard printed so far (the cases before it), the rest is not executed
             p.kill()
-            o = ""
+            try:
+                o, _ = p.communicate(timeout=30)
+            except Exception:
+                o = ""
         results[i] = o
 
     ths = [threading.Thread(target=work, args=(i, p, ch)) for i, (p, ch) in enumerate(procs)]
